@@ -85,6 +85,22 @@ def pool_items():
     return [s for s in items if s]
 
 
+STR_KINDS = ["'a'", 'r"b\\d"', "u'c'", "f'{d}'", "rf'{e}\\w'", "p'/g'", "pr'/h'", "pf'/{i}'", "fp'/{j}/k'", "'''l\nm'''", "f'''{n}\n'''", "F'o'"]
+PROBES = ["s = 'plain'\n", "t = f'{q}'\n", "u = p'/z'\n", "v = 'a' 'b'\n", "w = f(x, 'y')\n", "$(echo 'q' \"r\")\n"]
+
+
+def concat_items():
+    """implicit concatenations of every ordered pair (and some triples) of string kinds: state set by one part (path prefix, f-string
+    mode) must be consumed by the same expression and never leak into the next statement"""
+    out = []
+    for a in STR_KINDS:
+        for b in STR_KINDS:
+            out.append(f"x = {a} {b}\n")
+    for a, b, c in [(0, 7, 0), (5, 7, 3), (7, 5, 0), (5, 0, 7), (3, 5, 3), (8, 8, 0), (5, 6, 7), (0, 3, 7)]:
+        out.append(f"y = ({STR_KINDS[a]}\n     {STR_KINDS[b]} {STR_KINDS[c]})\n")
+    return out
+
+
 def starts_blank_or_comment(s):
     first = s.split("\n", 1)[0].strip()
     return first == "" or first.startswith("#")
@@ -111,6 +127,13 @@ def run_shard(shard):
                 parts = [pool[i], b]
                 if ok_sequence(parts):
                     check_case(acc, parts, "pair")
+    elif kind == "concat":
+        items = concat_items()
+        for it in items[shard["lo"] : shard["hi"]]:
+            for pr in PROBES:
+                check_case(acc, [it, pr], "concat-then-probe")
+                check_case(acc, [pr, it], "probe-then-concat")
+            check_case(acc, [it, rnd.choice(items), rnd.choice(PROBES)], "concat-concat-probe")
     elif kind == "seq":
         for _ in range(shard["n"]):
             parts = [rnd.choice(pool) for _ in range(rnd.randint(2, 6))]
@@ -143,6 +166,9 @@ def plan(tier, seed):
     else:
         for lo in range(0, n, 3):
             shards.append({"kind": "pairs", "seed": seed, "lo": lo, "hi": lo + 3})
+    nc = len(concat_items())
+    for lo in range(0, nc, 10):
+        shards.append({"kind": "concat", "seed": seed, "idx": lo, "lo": lo, "hi": lo + 10})
     for i in range(16 if q else 128):
         shards.append({"kind": "seq", "seed": seed, "idx": i, "n": 350 if q else 1500})
     files = corpus.files()
